@@ -20,6 +20,8 @@ CANON = {
     'mpz_mul_2exp': 'shl', 'gcry_mpi_mul_2exp': 'shl', 'mpz_tdiv_q_2exp': 'shr', 'mpz_fdiv_q_2exp': 'shr', 'gcry_mpi_rshift': 'shr',
     'mpz_set': 'set', 'gcry_mpi_set': 'set', 'mpz_set_ui': 'set_ui', 'gcry_mpi_set_ui': 'set_ui',
     'mpz_ui_pow_ui': 'ui_pow_ui', 'mpz_sizeinbase': 'size', 'gcry_mpi_get_nbits': 'size',
+    'mpz_get_ui': 'get_ui', 'tmcg_get_gcry_mpi_ui': 'get_ui',
+    'mpz_fdiv_r_ui': 'mod_ui', 'mpz_tdiv_r_ui': 'mod_ui', 'mpz_fdiv_ui': 'mod_ui', 'mpz_tdiv_ui': 'mod_ui',
 }
 NONCOMM = ('sub', 'sub_ui', 'div', 'div_ui', 'mod', 'mod_ui', 'powm', 'powm_ui', 'cmp', 'cmp_ui', 'shl', 'shr')
 
@@ -70,8 +72,23 @@ def run(ctx):
         pops = sorted(set(o for o, r, l in pla if o not in skip))
         sec = [x for x in sec if x[0] not in skip]
         pla = [x for x in pla if x[0] not in skip]
+        if not sops and not pops:
+            continue        # not an arithmetic operation
+        if 'random' in f['q']:
+            continue        # the two back ends draw randomness by different, non-corresponding mechanisms
         if not sops or not pops:
-            continue        # one back end does not offer the operation (it throws), or the helper is not arithmetic
+            # one back end applies a primitive of the table: the other either does not offer the
+            # operation (every path throws) or must apply the corresponding primitive
+            other = ctx.analysis(f, {('m', 'secret'): not bool(sops)})
+            returns = [1 for n_, kind, val, st in other.exits() if kind in ('return', 'end')]
+            if not returns:
+                continue
+            n += 1
+            k = 'R09a:%s:%s' % (f['q'], ','.join(p['t'].split(' ')[0 if not p['t'].startswith('const') else 1] for p in f['params'])[:40])
+            ctx.bad('R09a', k, 'the %s back end applies %s, the %s back end returns a result without applying the corresponding primitive '
+                    '(an ad-hoc replacement is not covered by the correspondence table and need not agree)' % (
+                        'secure' if sops else 'plain', sops or pops, 'plain' if sops else 'secure'), f)
+            continue
         if 'random' in f['q']:
             continue        # the two back ends draw randomness by different, non-corresponding mechanisms
         n += 1
